@@ -34,7 +34,7 @@ import c18_multi
 import c18_fault
 
 PID = "C18"
-PROPS = ["PfModel.Props.C18", "PfModel.Props.C18Calls", "PfModel.Props.C18Refused", "PfModel.Props.C18Cont", "PfModel.Props.C18Multi", "PfModel.Props.C18Fault"]
+PROPS = ["PfModel.Props.C18", "PfModel.Props.C18Calls", "PfModel.Props.C18Refused", "PfModel.Props.C18Cont", "PfModel.Props.C18Multi", "PfModel.Props.C18Fault", "PfModel.Props.C18User", "PfModel.Props.C18FaultRaise"]
 DRIVER = "C18"
 EXTRA_BUILD = ["PfModel.DriverC18Refuse", "PfModel.DriverC18Cont", "PfModel.DriverC18Multi", "PfModel.DriverC18Fault"]   # imported by Driver/C18.lean only
 RULE = ("sessions on random DAGs of 1-6 term-building functions (nullary, tuple outputs, shared parameters, defaults, bound values, "
